@@ -886,7 +886,10 @@ theorem transformTag_ok (env : Env) (n : Node) (st : St) (hn : TagOk n = true) (
             exact ⟨by simp [hi.1], hi.2⟩
           · exact ⟨by simp, hst⟩
   · rename_i as ks
-    exact ⟨C07_member_tag_no_jsx _ (by simpa [TagOk] using hn), hst⟩
+    refine ⟨C07_member_tag_no_jsx _ (by simpa [TagOk] using hn), ?_⟩
+    rcases memberRootCheck_cases (.mk .jsxMember as ks) st with h | h <;> rw [h]
+    · exact hst
+    · exact err_ok _ _ hst
   · exact ⟨by simp, hst⟩
   · rename_i h1 h2 h3
     exfalso
